@@ -1,21 +1,21 @@
-\* quick: extent-map query, inline refill, refill unit = 1 block, 2 readers x 1 read of 3 ranges, 1 eviction (explicit or sweep), 1 source fault
+\* thorough: 2 files, sweeps over both (capacity 0), inline, in-memory map
 SPECIFICATION Spec
 CONSTANTS
-  NF = 1
+  NF = 2
   SZ = 7
   BLK = 2
   RU = 2
   Readers = {r1, r2}
   r1 = r1
   r2 = r2
-  ReadSet <- RS_q3
+  ReadSet <- RS_one
   NReads = 1
   MaxEv = 1
   Async = FALSE
   MaxRefilling = 2
-  Faults = 1
-  Fiemap = TRUE
-  CapFull = FALSE
+  Faults = 0
+  Fiemap = FALSE
+  CapFull = TRUE
   ReopenMax = 0
   Bug = "none"
 SYMMETRY Sym
